@@ -160,6 +160,17 @@ pub fn menu(st: &GenState, prog: &Program, cfg: &GenCfg) -> Vec<Step> {
             m.push(Step::Derive(vec![Item { alias: Some("n".into()), e: E::IsNull(Box::new(E::Col(i))) }]));
         }
     }
+    // user functions (declared by `start`): positional call, and a two-parameter function whose
+    // arguments are swapped relative to the column order
+    if (core || naming) && prog.funcs.len() >= 2 {
+        if let Some(&i) = r2.first() {
+            m.push(Step::Derive(vec![Item { alias: Some("fx".into()), e: E::Call(0, vec![E::Col(i)]) }]));
+            m.push(Step::Filter(E::bin(Op::Gt, E::Call(0, vec![E::Col(i)]), E::Int(2))));
+        }
+        if r2.len() == 2 {
+            m.push(Step::Derive(vec![Item { alias: Some("fy".into()), e: E::Call(1, vec![E::Col(r2[1]), E::Col(r2[0])]) }]));
+        }
+    }
 
     // ---- filter
     for &i in &r2 {
@@ -325,6 +336,15 @@ pub fn menu(st: &GenState, prog: &Program, cfg: &GenCfg) -> Vec<Step> {
 
 pub fn start(kind: SrcKind) -> (Program, Pipeline) {
     let mut prog = Program::default();
+    // two user functions available to every program: inc x = x + 1 ; sub2 x y = x - y * 2
+    prog.funcs.push(UserFn { name: "inc".into(), params: vec!["p1".into()], named: vec![], style: CallStyle::Plain, body: E::bin(Op::Add, E::Col(0), E::Int(1)) });
+    prog.funcs.push(UserFn {
+        name: "sub2".into(),
+        params: vec!["p1".into(), "p2".into()],
+        named: vec![],
+        style: CallStyle::Plain,
+        body: E::bin(Op::Sub, E::Col(0), E::bin(Op::Mul, E::Col(1), E::Int(2))),
+    });
     let src = match kind {
         SrcKind::OpenT => Source::Table("t".into()),
         SrcKind::LetClosed => {
